@@ -5,6 +5,7 @@
 # VERIF_REPO=<dir> points the build at another checkout of go-gts/gts (used only
 # for mutation experiments on scratch worktrees; the default is /repo).
 set -u
+ORIG_PWD=$PWD
 export GOFLAGS=-mod=mod GOPROXY=off GOSUMDB=off GOTOOLCHAIN=local
 export CGO_ENABLED=0
 V=$(cd "$(dirname "$0")" && pwd)
@@ -80,6 +81,7 @@ case "$cmd" in
     "$BIN" check "$id" --tier "$tier"
     exit $?;;
   replay)
-    "$BIN" replay "$2" "$3"; exit $?;;
+    f=$3; case "$f" in /*) ;; *) f="$ORIG_PWD/$f";; esac
+    "$BIN" replay "$2" "$f"; exit $?;;
   *) echo "usage: run.sh check <ID> [quick|thorough] | replay <ID> <file>" >&2; exit 2;;
 esac
